@@ -813,6 +813,11 @@ def correspond(ctx):
                 hcases.append((line(fn, [dict(a0, **{m: huge})] + list(args[1:]), extra), fn, tag, m))
     hcases = hcases[:40] if ctx["tier"] == "quick" else hcases
     for (c, fn, tag, m), o in zip(hcases, vlib.run_cases(hbin, [x[0] for x in hcases], env_extra=env_extra, timeout_case=120)):
+        if o.startswith("CRASH TIMEOUT"):
+            # slow is not unsafe: A*GCMKW decrypts the whole wrapped key octet by octet (minutes under ASan for 9 MB);
+            # the time bound is C14's subject, memory safety is what is judged here
+            st["dist"]["calls with a member of 12 Mi characters that ran into the time limit (no verdict)"] = st["dist"].get("calls with a member of 12 Mi characters that ran into the time limit (no verdict)", 0) + 1
+            continue
         if o.startswith("CRASH"):
             mm = re.search(r"SAN \w+ ([\w-]+)", o)
             rep.violation("huge-member:%s:%s:%s" % (mm.group(1) if mm else "crash", fn, m),
